@@ -1,6 +1,7 @@
 package jsonapi
 
 import (
+	"bytes"
 	"encoding/json"
 	"sort"
 	"time"
@@ -429,37 +430,13 @@ func checkBytes(op string, rval, cval []byte) bool {
 
 		return len(rval) != len(cval)
 	case "<":
-		for i := 0; i < len(rval) && i < len(cval); i++ {
-			if rval[i] < cval[i] {
-				return true
-			}
-		}
-
-		return len(rval) < len(cval)
+		return bytes.Compare(rval, cval) < 0
 	case "<=":
-		for i := 0; i < len(rval) && i < len(cval); i++ {
-			if rval[i] > cval[i] {
-				return false
-			}
-		}
-
-		return len(rval) <= len(cval)
+		return bytes.Compare(rval, cval) <= 0
 	case ">":
-		for i := 0; i < len(rval) && i < len(cval); i++ {
-			if rval[i] > cval[i] {
-				return true
-			}
-		}
-
-		return len(rval) > len(cval)
+		return bytes.Compare(rval, cval) > 0
 	case ">=":
-		for i := 0; i < len(rval) && i < len(cval); i++ {
-			if rval[i] < cval[i] {
-				return false
-			}
-		}
-
-		return len(rval) >= len(cval)
+		return bytes.Compare(rval, cval) >= 0
 	default:
 		return false
 	}
